@@ -33,6 +33,9 @@ func noteExpired() {
 	}
 }
 
+// NoteExpired records a wait that expired outside this package.
+func NoteExpired() { noteExpired() }
+
 type chunk struct {
 	data []byte
 	err  error
